@@ -168,6 +168,12 @@ class TerminalFinal(Monitor):
                 continue
             if cur in TERMINAL:
                 new = twin.status
+                if s != cur and s is not None and not (cur == st.SUCCEEDED and s == st.FAILED):
+                    return [{
+                        "kind": "forbidden_request_not_rejected",
+                        "sig": {"request": s, "terminal": cur},
+                        "detail": "request_workflow_status(%r) on a %s workflow returned without an error" % (s, cur),
+                    }]
                 ok = new == cur or (cur == st.SUCCEEDED and new == st.FAILED and s == st.FAILED)
                 if not ok:
                     return [{
@@ -239,4 +245,7 @@ class CancelStops(Monitor):
             self.stats["renders"] += 1
             if status != st.CANCELED:
                 return v("render_changed_canceled")
+            if len(post["errors"]) > len(pre["errors"]):
+                return v("render_of_canceled_workflow_logged_error",
+                         new_error=post["errors"][-1].get("message", "")[:60])
         return []
